@@ -510,6 +510,18 @@ pub fn gen(prop: &str, r: &mut Rng, _filter: &str) -> Vec<String> {
             if s.len() <= 1 || t.len() <= 1 { return vec![]; }
             vec![prop.into(), "ren".into(), hex(&p), hex(&t), hex(&s), r.below(2).to_string()]
         }
+        "c10" if r.chance(1, 8) => {
+            // the size cap: a response whose wire form is small but whose decompressed form is near or beyond 8192 bytes, then one insertion
+            let l = 10 + r.below(50) as usize;
+            let mut q: Vec<u8> = vec![0x12, 0x34, 0x80, 0, 0, 1, 0, 0, 0, 0, 0, 0];
+            q.push(l as u8); q.extend(std::iter::repeat(b'n').take(l)); q.push(0); q.extend_from_slice(&[0, 1, 0, 1]);
+            let per = 14 + l + 2;                       // decompressed size of one record
+            let around = (8192usize.saturating_sub(q.len())) / per;
+            let m = (around + r.below(12) as usize).saturating_sub(8).max(1).min((8100 - q.len()) / 16);
+            for i in 0..m { q.extend_from_slice(&[0xc0, 0x0c, 0, 1, 0, 1, 0, 0, (i >> 8) as u8, i as u8, 0, 4, 10, 0, (i >> 8) as u8, i as u8]); }
+            q[6] = (m >> 8) as u8; q[7] = m as u8;
+            vec![prop.into(), "seq".into(), hex(&q), op_to_str(&Op::Insert(1 + r.below(3) as u8, text_rr(r)))]
+        }
         _ => {
             distinct_ttls(&mut p);
             let m = wire::parse_ref(&p).unwrap();
